@@ -39,8 +39,12 @@ TraceNext ==
      /\ cur' = [op |-> "final"] /\ l' = l + 1
      /\ UNCHANGED <<evars, ruser, rprev, tid, stale, sprev>>
 
-PFail(clause, p, layer, o, want) == PrintT(ToJson([tag |-> "P-FAIL", tid |-> tid, l |-> l - 1, clause |-> clause, probe |-> ProbeSeq[p].s,
+\* form: the call form by which the string was used as a unit string - "Unit" = Unit(s, registry=reg), "quantity" =
+\* unyt_quantity(1.0, s, registry=reg).units (every Unit(str) step and every probe of the final observation is made
+\* through both, in this order; "can be used as a unit string" and "denotes the same unit" hold for either)
+PFailF(clause, form, p, layer, o, want) == PrintT(ToJson([tag |-> "P-FAIL", tid |-> tid, l |-> l - 1, clause |-> clause, form |-> form, probe |-> ProbeSeq[p].s,
                                                    layer |-> layer, observed |-> o, expected |-> want]))
+PFail(clause, p, layer, o, want) == PFailF(clause, "Unit", p, layer, o, want)
 TFail(what, model) == PrintT(ToJson([tag |-> "T-FAIL", tid |-> tid, l |-> l - 1, what |-> what, model |-> model]))
 TStrOk(m, o) == IF m.k = "unit" THEN o.ok /\ (\E x \in DOMAIN o.den : o.den[x] = m.den) ELSE ~o.ok
 \* a step that was just taken: cur = its record (with observation), evars = the model's state after it
@@ -48,7 +52,9 @@ CheckStep ==
   (tid > 0 /\ cur.op \notin {"init", "final"}) =>
     /\ (cur.op = "unit" =>
           /\ (~C14_EditStr(ruser, cur.p, cur.obs) => PFail("EditStr", cur.p, Layer(sprev, cur.p), cur.obs, RefDens(ruser, cur.p)))
-          /\ (~TStrOk(last, cur.obs) => TFail("unit", last)))
+          /\ (~C14_EditStr(ruser, cur.p, cur.obsq) => PFailF("EditStr", "quantity", cur.p, Layer(sprev, cur.p), cur.obsq, RefDens(ruser, cur.p)))
+          /\ (~TStrOk(last, cur.obs) => TFail("unit", last))
+          /\ (~TStrOk(last, cur.obsq) => TFail("unit-quantity", last)))
     /\ (cur.op = "define" =>
           (~C14_DefineGuard(rprev, cur.k, cur.obs.k = "ok") =>
               PFail("DefineGuard", ProbeNo(cur.k), Layer(sprev, ProbeNo(cur.k)), cur.obs, {RaiseO})))
@@ -67,7 +73,9 @@ CheckFinal ==
   (tid > 0 /\ cur.op = "final") =>
     /\ \A p \in PIdx :
          /\ (~C14_EditStr(ruser, p, Final.probes[p]) => PFail("EditStr", p, Layer(stale, p), Final.probes[p], RefDens(ruser, p)))
+         /\ (~C14_EditStr(ruser, p, Final.probesq[p]) => PFailF("EditStr", "quantity", p, Layer(stale, p), Final.probesq[p], RefDens(ruser, p)))
          /\ (~TStrOk(PeekStr(p, lut, MemoRead)[1], Final.probes[p]) => TFail("final-unit", [probe |-> ProbeSeq[p].s, model |-> PeekStr(p, lut, MemoRead)[1]]))
+         /\ (~TStrOk(PeekStr(p, lut, MemoRead)[1], Final.probesq[p]) => TFail("final-unit-quantity", [probe |-> ProbeSeq[p].s, model |-> PeekStr(p, lut, MemoRead)[1]]))
     /\ (Final.nsok => \A p \in PIdx :
           /\ (~C14_EditNs(ruser, p, Final.ns[p]) => PFail("EditNs", p, Layer(stale, p), Final.ns[p], RefDens(ruser, p)))
           /\ ((Final.ns[p].present /\ Final.probes[p].ok /\ Final.ns[p].den # Final.probes[p].den)
@@ -77,7 +85,7 @@ CheckFinal ==
     \* call of the history touched still denotes prefix x canonical in this registry, i.e. what it denotes in an unedited
     \* registry - whatever user symbols were added and resolved (the harness lists the names that do not)
     /\ \A x \in DOMAIN Final.sweepbad :
-          PrintT(ToJson([tag |-> "P-FAIL", tid |-> tid, l |-> l - 1, clause |-> "EditSweep", probe |-> Final.sweepbad[x].name, layer |-> "fresh",
+          PrintT(ToJson([tag |-> "P-FAIL", tid |-> tid, l |-> l - 1, clause |-> "EditSweep", form |-> "Unit", probe |-> Final.sweepbad[x].name, layer |-> "fresh",
                          observed |-> Final.sweepbad[x].got, expected |-> {Final.sweepbad[x].want}]))
 Check == CheckStep /\ CheckFinal
 =============================================================================
